@@ -12,6 +12,7 @@ import (
 	"google.golang.org/protobuf/proto"
 	"google.golang.org/protobuf/reflect/protoreflect"
 
+	"github.com/smart-core-os/sc-api/go/traits"
 	"github.com/smart-core-os/sc-golang/pkg/masks"
 	"github.com/smart-core-os/sc-golang/pkg/resource"
 	"github.com/smart-core-os/sc-golang/verifharness/cmd/c05/mt"
@@ -201,7 +202,7 @@ func (c wcase) writeOpts() []resource.WriteOption {
 func (c wcase) runCode() wout {
 	dst, src := c.decode()
 	r := rootByName(c.Root)
-	out := wout{Written: proto.Clone(src)}
+	out := wout{Written: cloneExact(src)}
 	if dst != nil {
 		out.Before = proto.Clone(dst)
 	} else {
@@ -228,7 +229,7 @@ func (c wcase) runCode() wout {
 		out.After, out.SrcAfter = dst, src
 		out.ChangedOnErr = err != nil && !proto.Equal(dst, out.Before)
 		if err == nil {
-			dst2, src2 := proto.Clone(out.Before), proto.Clone(out.Written)
+			dst2, src2 := proto.Clone(out.Before), cloneExact(out.Written)
 			var err2 error
 			p2, _ := lib.Catch(func() {
 				if err2 = fu.Validate(src2); err2 == nil {
@@ -269,7 +270,7 @@ func (c wcase) runCode() wout {
 		if c.Inner != nil {
 			in := *c.Inner
 			_, isrc := in.decode()
-			iout := wout{Written: proto.Clone(isrc), Before: proto.Clone(out.Before), SrcAfter: isrc}
+			iout := wout{Written: cloneExact(isrc), Before: proto.Clone(out.Before), SrcAfter: isrc}
 			opts = append(opts, resource.InterceptBefore(func(_, _ proto.Message) {
 				// runs between the outer write's Validate and Merge
 				var ierr error
@@ -956,9 +957,9 @@ func seededCases() []wcase {
 
 func runWrites(f lib.Flags, res *lib.Result, drv *lib.Driver) {
 	tie := res.Tie("writes", "K1",
-		"random (stored, written, update mask, writable, extra writable, all-writable, reset) tuples (the resource's writable mask built by four routes: literal, fieldmaskpb.Union, Append growth, proto.Unmarshal — the last three leave spare capacity in Paths; a third of the resource writes with writable fields carry a NESTED write with its own extra-writable mask issued from InterceptBefore, i.e. between the outer Validate and Merge: a no-op/rejected Set on a Value, an Update of another item on a Collection; both writes are compared with the model and monitored against W ∪ their OWN extras) over TestAllTypes and three trait messages at FieldUpdater.Validate+Merge, Value.Set and Collection.Update, compared with the Lean model's validate/merge/valueSet (outcome: error code | panic | stored-after + written-after); masks drawn from the descriptor's path tree with parents, children, duplicates, overlaps and corrupted segments; non-trivial = some mask non-nil; distinct by the whole tuple")
+		"random (stored, written, update mask, writable, extra writable, all-writable, reset) tuples (the resource's writable mask built by four routes: literal, fieldmaskpb.Union, Append growth, proto.Unmarshal — the last three leave spare capacity in Paths; a third of the resource writes with writable fields carry a NESTED write with its own extra-writable mask issued from InterceptBefore, i.e. between the outer Validate and Merge: a no-op/rejected Set on a Value, an Update of another item on a Collection; both writes are compared with the model and monitored against W ∪ their OWN extras) over TestAllTypes and three trait messages at FieldUpdater.Validate+Merge, Value.Set and Collection.Update, compared with the Lean model's validate/merge/valueSet (outcome: error code | panic | stored-after + written-after); masks drawn from the descriptor's path tree with parents, children, duplicates, overlaps and corrupted segments; then 0.9k/15k cases (own generator, mostly the proto3 trait messages) whose written message holds a special float - NaN, +Inf, -Inf compared with the model, negative zero monitored only (the model's scalars are opaque tokens without a negative zero: bucket not-compared:written-negative-zero) - in a field the update and writable masks name two times out of three, the smallest such shapes first; non-trivial = some mask non-nil; distinct by the whole tuple")
 	mon := res.Monitor("write-semantics",
-		"for every case: path-by-path comparison of stored-before, written and stored-after over all populated leaf paths (reset => absent; outside update∩writable => unchanged; inside => FieldMask update semantics), rejection of unknown / read-only paths with no change, empty mask => no change, no panic; the resource's configured writable mask, hidden tail paths[len:cap] included, is unchanged after every write; a masks.FieldUpdater used a second time on copies of the same messages gives the same result")
+		"for every case: path-by-path comparison of stored-before, written and stored-after over all populated leaf paths (reset => absent; outside update∩writable => unchanged; inside => FieldMask update semantics, present/absent in the written message decided by protoreflect's Has on an exact wire-format copy of it: a written negative zero is present; stored as +0 it is the same number and accepted, a stored non-zero value KEPT under a mask that names the field is the recorded finding negative-zero-scalar-keeps-stored-value), rejection of unknown / read-only paths with no change, empty mask => no change, no panic; the resource's configured writable mask, hidden tail paths[len:cap] included, is unchanged after every write; a masks.FieldUpdater used a second time on copies of the same messages gives the same result")
 	g := &mt.Gen{R: lib.NewRand(f.Seed)}
 	runCases(seededCases(), tie, mon, drv)
 	n := f.N(6000, 150000)
@@ -986,10 +987,40 @@ func runWrites(f lib.Flags, res *lib.Result, drv *lib.Driver) {
 		}
 		sp = append(sp, specialFloatCase(g2, c))
 	}
+	// the smallest shapes first, the same for every seed: stored level 50, written level -0 / NaN / +Inf,
+	// update mask {level_percent} and no mask
+	var fixed []wcase
+	for _, site := range sites {
+		for _, v := range []float64{math.Copysign(0, -1), math.NaN(), math.Inf(1)} {
+			for _, M := range []mt.Mask{{Paths: []string{"level_percent"}}, mt.NilMask()} {
+				dst, src := &traits.Brightness{LevelPercent: 50, TargetLevelPercent: 25}, &traits.Brightness{LevelPercent: float32(v)}
+				fixed = append(fixed, wcase{Root: "Brightness", Site: site, W: mt.NilMask(), More: mt.NilMask(), M: M, R: mt.NilMask(),
+					Dst: mt.EncodeMsg(dst), Src: mt.EncodeMsg(src), DstText: mt.CanonMsg(dst), SrcText: mt.CanonMsg(src)})
+			}
+		}
+	}
+	runCases(fixed, tie, mon, drv)
 	runCases(sp, tie, mon, drv)
 	if f.Thorough() {
 		runExhaustive(res, drv, mon)
 	}
+}
+
+// cloneExact copies a message through the wire format: proto.Clone goes through proto.Merge, which
+// does not copy a negative zero of a proto3 float field (the copy would read +0 = absent).
+func cloneExact(m proto.Message) proto.Message {
+	if m == nil {
+		return nil
+	}
+	b, err := proto.MarshalOptions{Deterministic: true}.Marshal(m)
+	if err != nil {
+		panic(err)
+	}
+	c := m.ProtoReflect().New().Interface()
+	if err := proto.Unmarshal(b, c); err != nil {
+		panic(err)
+	}
+	return c
 }
 
 func negZeroTok(t string) bool { return t == "f80000000" || t == "d8000000000000000" }
